@@ -133,7 +133,8 @@ pub fn run(ctx: &mut Ctx, src: &Sources, f: &mut PosFn) {
     }
 
     type Fam = fn(&mut crate::rng::Rng) -> MPos;
-    let fams: [(&str, Fam); 7] = [
+    let fams: [(&str, Fam); 8] = [
+        ("fam_ep_stalemate", gen::fam_ep_stalemate),
         ("fam_enpassant", gen::fam_enpassant),
         ("fam_pin", gen::fam_pin),
         ("fam_check", gen::fam_check),
